@@ -2,6 +2,7 @@
 
 Every model is small enough to read and works at the level of code-point sequences. A callee without
 a model ends the path as Unsupported (=> inconclusive check), never as success."""
+import os
 import re
 
 import z3
@@ -1570,8 +1571,34 @@ def register_all(M):
                     break
         return UNIT
 
+    def unstable_sort_model(it, args, callee):
+        """`sort_unstable`: as the insertion sort above, but elements that compare Equal may end up in either order (the contract of an
+        unstable sort; the real implementation is an insertion sort - stable in effect - up to 20 elements and a quicksort beyond, a
+        length no bounded shape reaches). Every tie is the environment's choice; at most `VERIF_SORT_TIES` (3) choices per call."""
+        s = slice_of(args[0])
+        f = it.p.find_trait_fn("Rank", "Ord", "cmp")
+        items = s.items
+        ties = 0
+        limit = int(os.environ.get("VERIF_SORT_TIES", "3"))
+        for i in range(s.lo + 1, s.hi):
+            j = i
+            while j > s.lo:
+                r = it.call_function(f, [Ref(items, j - 1), Ref(items, j)])
+                swap = r.variant == 1   # Greater
+                if r.variant == 0 and ties < limit and items[j - 1] is not items[j]:     # Equal
+                    ties += 1
+                    _tie[0] += 1
+                    swap = it.st.branch(z3.Bool("sort_tie_swapped_%d" % _tie[0]))
+                if swap:
+                    items[j - 1], items[j] = items[j], items[j - 1]
+                    j -= 1
+                else:
+                    break
+        return UNIT
+    _tie = [0]
+
     reg("slice::sort")(sort_model)
-    reg("slice::sort_unstable")(sort_model)
+    reg("slice::sort_unstable")(unstable_sort_model)
 
     # ----------------------------------------------------------------- Range
     @reg("RangeInclusive::new")
